@@ -363,6 +363,98 @@ theorem C10_sortKey_fails_only_through_getDistance (d : Str) (e : PyErr) (h : so
           obtain ⟨n, hn⟩ := C10_track_metres_total d tc g1 htr hg
           rw [hn] at h; cases h
 
+/-- **`discipline_sort_key` never fails — on ANY string.**  Throws, hurdles, jumps and track codes with a metres part
+    were shown above; a relay's leg (upper-cased) has a token that is not itself a relay, and so has a track code
+    without a metres part, so their `get_distance` calls stay outside its relay branch and return
+    (`Lemmas/DistTotal`, `DistToken`, `RelayLeg`); everything else gets the key `(6, 0)`. -/
+theorem C10_sortKey_total (d : Str) : ∃ k, sortKey d = .ok k := by
+  cases h : sortKey d with
+  | ok k => exact ⟨k, rfl⟩
+  | error e =>
+    exfalso
+    have hrelT := Oblig.C07.tied mem_RELAYS
+    by_cases hd : d = []
+    · subst hd; simp [sortKey] at h
+    by_cases ht : (pyMatch "PAT_THROWS" d).isSome = true
+    · obtain ⟨n, hn⟩ := C10_throws_total d hd ht; rw [hn] at h; cases h
+    have ht' : (pyMatch "PAT_THROWS" d).isSome = false := by simpa using ht
+    cases hh : pyMatch "PAT_HURDLES" d with
+    | some hc =>
+      obtain ⟨n, hn⟩ := C10_hurdles_total d hd ht' (by rw [hh]; rfl); rw [hn] at h; cases h
+    | none =>
+      by_cases hj : (pyMatch "PAT_JUMPS" d).isSome = true
+      · obtain ⟨n, hn⟩ := C10_jumps_total d hd ht' hh hj; rw [hn] at h; cases h
+      have hj' : (pyMatch "PAT_JUMPS" d).isSome = false := by simpa using hj
+      have hne : d.isEmpty = false := by cases d <;> simp_all
+      unfold sortKey at h
+      simp only [hne, ht', hh, hj', Bool.false_eq_true, if_false] at h
+      cases hr : pyMatch "PAT_RELAYS" d with
+      | some rc =>
+        simp only [hr] at h
+        obtain ⟨r, hrr⟩ := relay_leg_ok Oblig.C10.digit_table Oblig.C10.leading Oblig.C10.relay_leg hrelT d rc hr 7
+        split at h
+        · cases h
+        · rw [hrr] at h
+          cases r <;> simp at h
+      | none =>
+        simp only [hr] at h
+        cases htr : pyMatch "PAT_TRACK" d with
+        | none => simp only [htr] at h; cases h
+        | some tc =>
+          simp only [htr] at h
+          cases hg : group d tc 1 with
+          | none =>
+            simp only [hg] at h
+            have hM : Matches Gen.PAT_TRACK d := (pyMatch_iff _ _ (Oblig.C07.tied mem_TRACK) d).1 (by rw [htr]; rfl)
+            obtain ⟨r, hrr⟩ := getDistance_ok_of_language Oblig.C10.digit_table Oblig.C10.leading Gen.PAT_TRACK
+              Oblig.C10.track_token hrelT 7 d hM
+            rw [hrr] at h
+            cases r <;> simp at h
+          | some g1 =>
+            simp only [hg] at h
+            obtain ⟨n, hn⟩ := C10_track_metres_total d tc g1 htr hg
+            rw [hn] at h; cases h
+
+/-- … hence the text key and the sorter never fail either. -/
+theorem C10_textKey_total (d : Str) : ∃ t, textKey d = .ok t :=
+  (C10_text_total_iff d).2 (C10_sortKey_total d)
+
+theorem C10_sortBy_total (l : List Str) : ∃ r, sortBy l = .ok r := by
+  unfold sortBy
+  have : ∀ l : List Str, ∃ tagged, l.mapM (fun d => (sortKey d).map (fun k => ((k, if d.isEmpty then ['?'] else d), d))) = .ok tagged := by
+    intro l
+    induction l with
+    | nil => exact ⟨[], rfl⟩
+    | cons d ds ih =>
+      obtain ⟨k, hk⟩ := C10_sortKey_total d
+      obtain ⟨ts, hts⟩ := ih
+      refine ⟨((k, if d.isEmpty then ['?'] else d), d) :: ts, ?_⟩
+      rw [List.mapM_cons, hk, hts]
+      rfl
+  obtain ⟨tagged, ht⟩ := this l
+  rw [ht]; exact ⟨_, rfl⟩
+
+theorem mem_EVENT_CODE : ("PAT_EVENT_CODE", Gen.PAT_EVENT_CODE) ∈ Gen.patternTable := by decide +kernel
+
+/-- **`get_distance` returns on every event code that is not a relay** (whatever follows the first token). -/
+theorem C10_getDistance_total_nonrelay (fuel : Nat) (s : Str) (hc : (pyMatch "PAT_EVENT_CODE" s).isSome = true)
+    (hr : (pyMatch "PAT_RELAYS" s).isSome = false) : ∃ r, getDistance (fuel + 1) s = .ok r := by
+  have h1 : Matches Gen.PAT_EVENT_CODE s := (pyMatch_iff _ _ (Oblig.C07.tied mem_EVENT_CODE) s).1 hc
+  have h2 : ¬ Matches Gen.PAT_RELAYS s := by
+    intro hm
+    have := (pyMatch_iff _ _ (Oblig.C07.tied mem_RELAYS) s).2 hm
+    rw [hr] at this; cases this
+  exact getDistance_ok_of_language Oblig.C10.digit_table Oblig.C10.leading Oblig.C10.nonRelayCodes
+    Oblig.C10.code_token (Oblig.C07.tied mem_RELAYS) fuel s ⟨h1, h2⟩
+
+/-- What is proved of the totality clause: for every string the sort key, its text form, the sorter and the
+    duration reader return; for every accepted code that is not a relay the distance estimator returns. -/
+theorem C10_total_partial (s : Str) :
+    (∃ k, sortKey s = .ok k) ∧ (∃ t, textKey s = .ok t) ∧ (∃ r, durationTime s = .ok r) ∧
+    ((pyMatch "PAT_EVENT_CODE" s).isSome = true → (pyMatch "PAT_RELAYS" s).isSome = false →
+      ∃ r, getDistance 8 s = .ok r) :=
+  ⟨C10_sortKey_total s, C10_textKey_total s, C10_duration_total s, C10_getDistance_total_nonrelay 7 s⟩
+
 /-- Full statement of the totality clause (NOT proved here). -/
 def C10_total_statement : Prop :=
   ∀ s : Str, (pyMatch "PAT_EVENT_CODE" s).isSome →
